@@ -48,6 +48,8 @@ func runC13(r *hk.Run) {
 	h1AbortPairs(r, rng, r.Scale(25, 250))
 	h3AbortPairs(r, rng, r.Scale(25, 250))
 	h1InteractivePairs(r, rng, r.Scale(30, 300))
+	h1CloneAsyncPairs(r, rng, r.Scale(12, 120))
+	h2BrokenRespPairs(r, rng, r.Scale(30, 300))
 }
 
 // ---------- (a) line cases ----------
@@ -234,23 +236,34 @@ const (
 var slotNames = []string{"Output", "RequestOutput", "ResponseOutput", "RequestHeaderOutput", "RequestBodyOutput", "ResponseHeaderOutput", "ResponseBodyOutput"}
 
 type sink struct {
-	slept int
-	mu    sync.Mutex
-	data  map[[2]int][]byte // (dumper, writer id) -> content
+	firstDone bool
+	slept     int
+	mu        sync.Mutex
+	data      map[[2]int][]byte // (dumper, writer id) -> content
 }
 
 func newSink() *sink { return &sink{data: map[[2]int][]byte{}} }
 
 type tagW struct {
-	s     *sink
-	d, id int
-	fail  bool // a broken writer: records what it is offered, then reports (0, error)
-	slow  bool // blocks ~2 ms in each of the first 25 writes of the run
+	s         *sink
+	d, id     int
+	fail      bool // a broken writer: records what it is offered, then reports (0, error)
+	slow      bool // blocks ~2 ms in each of the first 25 writes of the run
+	slowFirst bool // the very first write of the run takes 150 ms and is recorded only when it ends
 }
 
 var errDumpWriter = errors.New("c13: dump writer failed")
 
 func (t *tagW) Write(p []byte) (int, error) {
+	if t.slowFirst {
+		t.s.mu.Lock()
+		first := !t.s.firstDone
+		t.s.firstDone = true
+		t.s.mu.Unlock()
+		if first {
+			time.Sleep(150 * time.Millisecond)
+		}
+	}
 	t.s.mu.Lock()
 	k := [2]int{t.d, t.id}
 	t.s.data[k] = append(t.s.data[k], p...)
@@ -282,11 +295,12 @@ func (s *sink) snapshot() map[[2]int][]byte {
 
 // optSpec: which Output fields are set, which parts are on.
 type optSpec struct {
-	Set   [7]bool `json:"set"`
-	On    [4]bool `json:"on"` // ReqHeader, ReqBody, RespHeader, RespBody
-	Async bool    `json:"async"`
-	Fail  bool    `json:"failing_writers,omitempty"` // every writer of this dumper reports an error
-	Slow  bool    `json:"slow_writers,omitempty"`    // every writer of this dumper blocks for a moment
+	Set       [7]bool `json:"set"`
+	On        [4]bool `json:"on"` // ReqHeader, ReqBody, RespHeader, RespBody
+	Async     bool    `json:"async"`
+	Fail      bool    `json:"failing_writers,omitempty"`  // every writer of this dumper reports an error
+	Slow      bool    `json:"slow_writers,omitempty"`     // every writer of this dumper blocks for a moment
+	SlowFirst bool    `json:"slow_first_write,omitempty"` // the first write of the run blocks 150 ms
 }
 
 func writerID(level, slot int) int { return 10 + 10*level + slot }
@@ -298,7 +312,7 @@ func (o optSpec) build(level int, s *sink) *req.DumpOptions {
 		if !o.Set[slot] {
 			return nil
 		}
-		return &tagW{s: s, d: level, id: writerID(level, slot), fail: o.Fail, slow: o.Slow}
+		return &tagW{s: s, d: level, id: writerID(level, slot), fail: o.Fail, slow: o.Slow, slowFirst: o.SlowFirst}
 	}
 	d := &req.DumpOptions{RequestHeader: o.On[0], RequestBody: o.On[1], ResponseHeader: o.On[2], ResponseBody: o.On[3], Async: o.Async}
 	// assign only non-nil (a typed nil *tagW in an io.Writer would not be == nil)
@@ -404,9 +418,133 @@ func genOpt(rng *hk.Rand, level int, r *hk.Run) optSpec {
 	return o
 }
 
+// reqOp: one request-level dump setter call.  Kind: set (SetDumpOptions(Opt)) | enable (EnableDump)
+// | to (EnableDumpTo(w)) | nobody | noheader | noresponse | norequest | noreqbody | norespbody
+// (EnableDumpWithoutXxx).
+type reqOp struct {
+	Kind string   `json:"op"`
+	Opt  *optSpec `json:"options,omitempty"`
+}
+
 type dumpCfg struct {
 	Client  *optSpec `json:"client"`
-	Request *optSpec `json:"request"`
+	Request *optSpec `json:"request"`              // the options the request-level dumper must end up with (nil: no dumper)
+	ReqOps  []reqOp  `json:"request_setter_calls"` // the calls made on the request, in order
+}
+
+var offOps = map[string][]int{"nobody": {1, 3}, "noheader": {0, 2}, "noresponse": {2, 3}, "norequest": {0, 1}, "noreqbody": {1}, "norespbody": {3}}
+
+// evalReqOps: what the documentation of the setters promises.  All of them work on the request's
+// one DumpOptions value: SetDumpOptions replaces it, EnableDumpTo sets its Output,
+// EnableDumpWithoutXxx switches parts off in it, and every EnableDump* turns dumping on; the
+// default value has the four parts on and the request's own buffer as Output.
+func evalReqOps(ops []reqOp) *optSpec {
+	var cur *optSpec
+	enabled := false
+	get := func() *optSpec {
+		if cur == nil {
+			cur = &optSpec{On: [4]bool{true, true, true, true}}
+		}
+		return cur
+	}
+	for _, op := range ops {
+		switch op.Kind {
+		case "set":
+			c := *op.Opt
+			cur = &c
+		case "enable":
+			get()
+			enabled = true
+		case "to":
+			get().Set[slotOut] = true
+			enabled = true
+		default:
+			for _, p := range offOps[op.Kind] {
+				get().On[p] = false
+			}
+			enabled = true
+		}
+	}
+	if !enabled {
+		return nil
+	}
+	return cur
+}
+
+func genReqOps(rng *hk.Rand, r *hk.Run) []reqOp {
+	o := genOpt(rng, 1, r)
+	if rng.Chance(45) { // the order the documentation shows
+		return []reqOp{{Kind: "set", Opt: &o}, {Kind: "enable"}}
+	}
+	kinds := []string{"set", "set", "enable", "to", "nobody", "noheader", "noresponse", "norequest", "noreqbody", "norespbody"}
+	var ops []reqOp
+	n := rng.Range(1, 4)
+	for i := 0; i < n; i++ {
+		k := hk.Pick(rng, kinds)
+		op := reqOp{Kind: k}
+		if k == "set" {
+			p := genOpt(rng, 1, r)
+			op.Opt = &p
+		}
+		ops = append(ops, op)
+	}
+	r.Count("request-level setter calls in free order")
+	return ops
+}
+
+func (c *dumpCfg) setReqOps(ops []reqOp) {
+	c.ReqOps = ops
+	c.Request = evalReqOps(ops)
+}
+
+// forceRequestOutput: make sure the request-level dumper (if any) has an explicit Output
+func (c *dumpCfg) forceRequestOutput() {
+	if c.Request != nil && !c.Request.Set[slotOut] {
+		c.setReqOps(append(append([]reqOp(nil), c.ReqOps...), reqOp{Kind: "to"}))
+	}
+}
+
+func coqReqOps(ops []reqOp) string {
+	var o []string
+	for _, op := range ops {
+		switch op.Kind {
+		case "set":
+			o = append(o, "RSet "+op.Opt.coq(1))
+		case "enable":
+			o = append(o, "REnable")
+		case "to":
+			o = append(o, fmt.Sprintf("RTo %d%%N", writerID(1, slotOut)))
+		default:
+			o = append(o, map[string]string{"nobody": "RNoBody", "noheader": "RNoHeader", "noresponse": "RNoResponse", "norequest": "RNoRequest", "noreqbody": "RNoReqBody", "norespbody": "RNoRespBody"}[op.Kind])
+		}
+	}
+	return hk.CoqList(o)
+}
+
+// applyReqOps makes the calls on the real request
+func applyReqOps(rq *req.Request, ops []reqOp, s *sink) {
+	for _, op := range ops {
+		switch op.Kind {
+		case "set":
+			rq.SetDumpOptions(op.Opt.build(1, s))
+		case "enable":
+			rq.EnableDump()
+		case "to":
+			rq.EnableDumpTo(&tagW{s: s, d: 1, id: writerID(1, slotOut)})
+		case "nobody":
+			rq.EnableDumpWithoutBody()
+		case "noheader":
+			rq.EnableDumpWithoutHeader()
+		case "noresponse":
+			rq.EnableDumpWithoutResponse()
+		case "norequest":
+			rq.EnableDumpWithoutRequest()
+		case "noreqbody":
+			rq.EnableDumpWithoutRequestBody()
+		case "norespbody":
+			rq.EnableDumpWithoutResponseBody()
+		}
+	}
 }
 
 func genCfg(rng *hk.Rand, r *hk.Run) dumpCfg {
@@ -417,12 +555,12 @@ func genCfg(rng *hk.Rand, r *hk.Run) dumpCfg {
 		c.Client = &o
 		r.Count("level=client")
 	case 1:
-		o := genOpt(rng, 1, r)
-		c.Request = &o
+		c.setReqOps(genReqOps(rng, r))
 		r.Count("level=request")
 	default:
-		o, p := genOpt(rng, 0, r), genOpt(rng, 1, r)
-		c.Client, c.Request = &o, &p
+		o := genOpt(rng, 0, r)
+		c.Client = &o
+		c.setReqOps(genReqOps(rng, r))
 		r.Count("level=both")
 	}
 	return c
@@ -831,4 +969,14 @@ func lit1(b []byte) string {
 		ws = append(ws, fmt.Sprintf("0x%x", w))
 	}
 	return fmt.Sprintf("(pk %d [%s]%%uint63)", len(b), strings.Join(ws, "; "))
+}
+
+// emitReqOps: the setter-call sequence and the options the oracle found the real dumper to work
+// with (the contents matched them) - the model's run_rops must give the same
+func emitReqOps(r *hk.Run, cfg dumpCfg, in interface{}) {
+	if len(cfg.ReqOps) == 0 {
+		return
+	}
+	r.Add(hk.Case{Coq: fmt.Sprintf("ReqOpsCase %s %s", coqReqOps(cfg.ReqOps), coqOptOpt(cfg.Request, 1)),
+		Desc: map[string]interface{}{"kind": "request-setters", "input": in}}, "ops|"+keyOf(cfg.ReqOps), len(cfg.ReqOps) > 2)
 }
